@@ -17,6 +17,13 @@ Definition edge_offset (order : Z) (i j : nat) : Z := (npts order 0 + npts order
 Definition vertex_offset (order : Z) (k : nat) : Z :=
   (npts order 0 + 6 * npts order 1 + npts order 2 * Z.of_nat k)%Z.
 
+(* dtype of the arrays the offsets are stored in (test_offsets, trial_offsets, weights_offsets, number_of_quad_points
+   are numpy uint32; vertex_offsets is computed in uint32 because of `_np.arange(3, dtype="uint32")`): values are
+   reduced modulo 2^32.  edge_offsets is an int64 table (Python ints and a default-int array). *)
+Definition u32 (z : Z) : Z := (z mod 2 ^ 32)%Z.
+Definition vertex_offset_u32 (order : Z) (k : nat) : Z :=
+  u32 (npts order 0 + 6 * npts order 1 + u32 (npts order 2 * Z.of_nat k)).
+
 (* _collect_remapped_quad_points_for_edge_adjacent_rule: order of the hstack *)
 Definition edge_remap_order : list (nat * nat) := [(0, 1); (1, 0); (1, 2); (2, 1); (0, 2); (2, 0)]%nat.
 Definition collect_edge (pts : list (Q * Q)) : list (Q * Q) :=
@@ -51,12 +58,12 @@ Definition vectorize (order : Z) (ts rs : list bool) (ea : list erow) (va : list
   mkSing
     (co ++ map (fun r => match r with (e, _, _, _, _, _) => e end) ea' ++ map (fun r => match r with (e, _, _, _) => e end) va')
     (co ++ map (fun r => match r with (_, f, _, _, _, _) => f end) ea' ++ map (fun r => match r with (_, f, _, _) => f end) va')
-    (map (fun _ => 0%Z) co ++ map (fun r => match r with (_, _, i0, i1, _, _) => edge_offset order i0 i1 end) ea'
-       ++ map (fun r => match r with (_, _, i, _) => vertex_offset order i end) va')
-    (map (fun _ => 0%Z) co ++ map (fun r => match r with (_, _, _, _, j0, j1) => edge_offset order j0 j1 end) ea'
-       ++ map (fun r => match r with (_, _, _, j) => vertex_offset order j end) va')
-    (map (fun _ => 0%Z) co ++ map (fun _ => npts order 0) ea' ++ map (fun _ => (npts order 0 + npts order 1)%Z) va')
-    (map (fun _ => npts order 0) co ++ map (fun _ => npts order 1) ea' ++ map (fun _ => npts order 2) va').
+    (map (fun _ => 0%Z) co ++ map (fun r => match r with (_, _, i0, i1, _, _) => u32 (edge_offset order i0 i1) end) ea'
+       ++ map (fun r => match r with (_, _, i, _) => vertex_offset_u32 order i end) va')
+    (map (fun _ => 0%Z) co ++ map (fun r => match r with (_, _, _, _, j0, j1) => u32 (edge_offset order j0 j1) end) ea'
+       ++ map (fun r => match r with (_, _, _, j) => vertex_offset_u32 order j end) va')
+    (map (fun _ => 0%Z) co ++ map (fun _ => u32 (npts order 0)) ea' ++ map (fun _ => u32 (npts order 0 + npts order 1)) va')
+    (map (fun _ => u32 (npts order 0)) co ++ map (fun _ => u32 (npts order 1)) ea' ++ map (fun _ => u32 (npts order 2)) va').
 
 (* the three concatenated arrays of get_arrays for a given order (None if the order is rejected) *)
 Definition rule_arrays (order : Z) : option (list (Q * Q) * list (Q * Q) * list Q) :=
